@@ -268,11 +268,10 @@ void QXmppPubSubSubscription::parse(const QDomElement &element)
 
     d->jid = element.attribute(u"jid"_s);
     d->state = stateFromString(element.attribute(u"subscription"_s));
+    d->node = element.attribute(u"node"_s);
+    d->subId = element.attribute(u"subid"_s);
 
     if (isPubSub || isPubSubEvent) {
-        d->node = element.attribute(u"node"_s);
-        d->subId = element.attribute(u"subid"_s);
-
         if (isPubSubEvent) {
             if (element.hasAttribute(u"expiry"_s)) {
                 d->expiry = QXmppUtils::datetimeFromString(
